@@ -554,12 +554,33 @@ def part_chain(run, rng, ncases, quick, t_end):
         log = []
         err = None
         ret_s = rng.random() < 0.3
+        # LAPACK's divide-and-conquer SVD occasionally fails to converge; the implementation then retries with the
+        # standard driver. One such failure is injected in 8 % of the sweeps: the result must obey the same bounds.
+        import scipy.linalg as _sla
+        inject = kind == "mps" and not mixed and rng.random() < 0.08
+        real_svd = _sla.svd
+        state = dict(n=0, at=int(rng.integers(0, 4)), fired=False)
+
+        def flaky_svd(a, *args, **kw):
+            if kw.get("lapack_driver", "gesdd") == "gesdd":
+                state["n"] += 1
+                if state["n"] - 1 == state["at"]:
+                    state["fired"] = True
+                    raise _sla.LinAlgError("SVD did not converge (injected)")
+            return real_svd(a, *args, **kw)
+        if inject:
+            _sla.svd = flaky_svd
+            replay["injected_gesdd_failure_at_call"] = state["at"]
         try:
             with record_decisions(log):
                 out = work.compress(temp_m_trunc=cfg["temp"], ret_s=ret_s)
             res = out[0] if ret_s else out
         except Exception as e:
             err = e
+        finally:
+            _sla.svd = real_svd
+        if inject and state["fired"]:
+            run.count("chain:injected-gesdd-failure")
         if err is not None:
             replay["error"] = f"{type(err).__name__}: {err}"
         d10 = judge_decisions(run, log, "chain-compress", replay)
